@@ -229,6 +229,23 @@ Example oracle_replacement_is_a_target_again :
      = [AQueuedWhileFree 4 1 1].
 Proof. vm_compute. repeat split; reflexivity. Qed.
 
+(* ---- load shedding hits the applicable queue only (sticky queuer; judged where the model's own run is
+   clean, lib/c13.py): worker 0 runs key 5, a discard limit of 1 is set at runtime, jobs 2..4 of key 5
+   are parked at worker 0 -- its private queue has no limit under a factory-queueing router -- and
+   nothing is shed. A history in which job 4 comes back with reason Loadshed is rejected. *)
+Definition sq13 := mk_config RSticky false [] [].
+Definition shed_ops :=
+  [ODispatch 1 5 None false; OSetDisc (Some (1, Newest)); ODispatch 2 5 None true; ODispatch 3 5 None true;
+   ODispatch 4 5 None true; OQuery].
+Example oracle_shed_only_from_the_factory_queue :
+  scenario_events sq13 2 None [] shed_ops
+  = [[EStart 1 0 0]; []; [EAcc 2]; [EAcc 3]; [EAcc 4]; [EQDepth 0; EQActive 1; EQCap 2]]
+  /\ check_C13 sq13 2 None shed_ops (scenario_events sq13 2 None [] shed_ops) = []
+  /\ check_C13 sq13 2 None shed_ops
+       [[EStart 1 0 0]; []; [EAcc 2]; [EAcc 3]; [EDisc 4 RLoadshed; ERet 4]; [EQDepth 0; EQActive 1; EQCap 2]]
+     = [AShedKeyRunning 4 5 4].
+Proof. vm_compute. repeat split; reflexivity. Qed.
+
 Print Assumptions C13_places_partition.
 Print Assumptions C13_one_place.
 Print Assumptions C13_never_runs_twice.
